@@ -22,6 +22,9 @@ CLAIMED = {
  "C07": core("Model invariants C07_NoDeadReachable / DeadExact / ResurrectHolds; in the real crate every MarkedArena handed out is inspected (is_dead for every accessible object and weak target), resurrections chosen by TLC are performed, and the monitor checks dead<=>unreachable (when no mutation since marking began), resurrect's result, survival of the resurrected closure through the cycle and the return to Marking."),
  "C08": core("Action property C08_PhaseProtocol on the model; the same PhaseOK/MarkedOK tables judge every recorded call (kind, phase before, phase after, MarkedArena returned) and every callback of the real crate."),
  "C11": core("The model's Next is extended with trace panics (k-th Collect::trace invocation of a call, after j children, for objects and for the root), callbacks that panic after their last step (mutate, mutate_root, map_root, try_map_root), try_map_root returning Err and failing Arena::new / try_new constructors; ALL invariants of C01-C07 are required in every post-fault state.  Each fault class is replayed in the real crate with the panic injected at exactly that trace call (catch_unwind), the behaviour continues, and the C01-C05 monitor rules plus 'a consumed arena releases everything' judge the recorded trace."),
+ "C14": core("DynamicRootSet is part of the collector model: per set object the slot table (occupied/vacant, refcount, free list) transcribed from Slots::add/inc/dec, the set's strong children DERIVED from its occupied slots, handles as records outside the arena that survive it.  TLC checks slot-table well-formedness (refcount = handles - 1, free list = vacant slots), 'slot reuse never retargets a live handle', keeps-alive and (through C02_Exact) collectability for every interleaving of new_set / stash / clone / drop / remove_set with collection increments up to the stated length; class witnesses (phase x colour of set and object x slot reuse x refcount) are replayed in the real crate, where after every operation every handle is presented to every set (contains, try_fetch, fetch) and the monitor checks acceptance, identity of the fetched object, harmless handle operations after the set or arena is gone, plus C01/C02 with stashed objects as roots."),
+ "C20": {**core("TwoArenas.tla composes two instances of the collector model on disjoint variables (frame property C20_Frame checked by TLC) and enumerates their interleavings, including dropping one arena in every phase of the other; the harness runs them on two real arenas of one thread with different pacing, re-observes the OTHER arena after every operation, and the monitor requires (r1) that values are destructed/released only by operations on their own arena, (r2) that phase, count and debt of an arena are unchanged by anything that happened since its own last operation, and each arena's C01-C05 rules."), "category": "exploration",
+         "note": "Model checking of the composition is vacuous by construction and is not what is claimed; the claim is trace validation of interleaved real executions drawn from the model (exploration). Foreign handles are covered under C14 (handles of one set presented to another set)."},
  "C09": {"engine": "pacing", "category": "model_checking", "design_ref": "DESIGN.md 3.3, 6 (C09)",
    "text": "MC_Pacing.tla is the collector model with the crate's real debt arithmetic (integers scaled by 16, exact for dyadic pacings); TLC checks collect_debt-pays, stop-or-paid, stop-the-world, the rho bound (with the antecedent 'woke with positive debt') and the sleep promise for four pacings over every history of bounded length.  Every emitted behaviour is replayed in the real crate with EQUALITY of allocation_debt()*16 and the Gc count after every operation; a seeded random driver (heaps up to 64 roots, bursts, all-survive / all-garbage / shells / mixed workloads, random dyadic pacings incl. stop-the-world and rho = 15/16) explores larger H; the monitor's C09 rules judge every recorded call.",
    "note": "Trusted base: TLC, the harness. Equality of debts only for dyadic factors; the rho bound is exhaustive for 2-object heaps only and explored (not proved) beyond; sleep rule applied after atomic cycles only (weaker reading).",
